@@ -225,6 +225,10 @@ class Machine:
             elif k == "done":
                 self.sm.done()
                 self.emit(act)
+            elif k == "engage":
+                init = None if act["init"] == "none" else self.ref(act["init"])
+                self.sm.engage(initial_state=init, force=act["force"])
+                self.emit(act)
         self.depth -= 1
 
     def run_iteration(self, ev):
@@ -372,6 +376,9 @@ class RandomSource:
             return {"e": "nsnow", "s": rng.choice(self.nondef)}
         if r < 0.40:
             return {"e": "done"}
+        if r < 0.46 and not self.shape["auto"]:
+            return {"e": "engage", "init": rng.choice(self.nondef) if rng.random() < 0.3 else "none",
+                    "force": rng.random() < 0.4}
         return None
 
     def consume_ret(self):
@@ -399,7 +406,7 @@ class ScriptSource:
     def in_state(self, m, name):
         if self.i < len(self.ev):
             e = self.ev[self.i]
-            if e.get("depth", 0) == m.depth and e["e"] in ("ns", "nsnow", "done"):
+            if e.get("depth", 0) == m.depth and e["e"] in ("ns", "nsnow", "done", "engage"):
                 self.i += 1
                 return {k: v for k, v in e.items() if k != "depth"}
         return None
